@@ -12,6 +12,10 @@ def main():
         from . import scores
 
         scores.main("C03", 2)
+    elif pid == "C02":
+        from . import score4
+
+        score4.main("C02")
     else:
         print("no check registered for %s" % pid)
         sys.exit(3)
